@@ -111,5 +111,7 @@ FAMILIES = {
         {'family': 'core', 'knobs': {'p_cancel': 0.15, 'p_error': 0.15}, 'quick': 400, 'thorough': 6000},
         # "... and the stream's id can be used again": ids wrap around and are used again within one connection
         {'family': 'idwrap', 'knobs': {}, 'quick': 200, 'thorough': 3000, 'first': 300000},
+        # interactions that end with their connection, between two fragments of an inbound frame; the id is used again after the reconnect
+        {'family': 'reconnect', 'knobs': {'who': 'app', 'p_stale_fragments': 1.0}, 'quick': 200, 'thorough': 3000, 'first': 400000},
     ],
 }
